@@ -303,6 +303,8 @@ def finish(mod, tier, total, coverage, t0, assumptions):
     coverage.setdefault('evaluations', total.evals)
     coverage.setdefault('distinct_nontrivial', len(total.digests))
     coverage.setdefault('samples', total.samples[:MAX_SAMPLES])
+    if not coverage['samples']:
+        raise HarnessError('the run produced no sample cases for the evidence file (check %s)' % prop_id)
     coverage.setdefault('exhaustive', not total.extra.get('failfast_stopped'))
     coverage['outcome_histogram'] = dict(total.hist)
     coverage['counters'] = {k: (round(v, 2) if isinstance(v, float) else v)
